@@ -176,7 +176,11 @@ DOMNode *DOMParentNode::insertBefore(DOMNode *newChild, DOMNode *refChild) {
         throw DOMException(DOMException::WRONG_DOCUMENT_ERR, 0, GetDOMParentNodeMemoryManager);
 
     // Prevent cycles in the tree
-    //only need to do this if the node has children
+    // a node can never become its own child
+    if (newChild == getContainingNode())
+        throw DOMException(DOMException::HIERARCHY_REQUEST_ERR,0, GetDOMParentNodeMemoryManager);
+
+    //for the ancestors, we only need to do this if the node has children
     if(newChild->hasChildNodes()) {
         bool treeSafe=true;
         for(DOMNode *a=getContainingNode()->getParentNode();
@@ -438,6 +442,13 @@ void DOMParentNode::normalize()
             //   not released in case user still referencing it externally
             removeChild(next);
             next = kid; // Don't advance; there might be another.
+        }
+
+        // In the normal form there are no empty Text nodes either
+        else if (kid->getNodeType() == DOMNode::TEXT_NODE &&
+                 ((DOMTextImpl *) kid)->getLength() == 0)
+        {
+            removeChild(kid);
         }
 
         // Otherwise it might be an Element, which is handled recursively
